@@ -178,7 +178,9 @@ def parse_graphic_sequence(
                 current_set.append(items[idx])
             left_in_set -= 1
             if left_in_set <= 0:
-                output.append(AnsiSetting(current_set))
+                # The arguments of a multi-code function are 8-bit values; a set with anything else is erroneous
+                if add_erroneous or not [x for x in current_set[1:] if not isinstance(x, int) or x > 255]:
+                    output.append(AnsiSetting(current_set))
                 current_set = []
         elif add_erroneous:
             output.append(AnsiSetting(value))
